@@ -265,6 +265,62 @@ def values_shard(args):
     return agg
 
 
+
+# ------------------------------------------------------------------------------------------------
+# leg 2d: whole programs from the generator families of the other checks, looked at for the outcome class only
+
+HISTORY_USES = ["X", "std.manifestYamlDoc(X)", "std.manifestTomlEx(X, ' ')", "std.manifestPython(X)", "std.prune(X)",
+                "std.objectValues(X)", "std.objectValuesAll(X)", "std.objectKeysValues(X)", "std.objectKeysValuesAll(X)",
+                "std.mergePatch(X, X)", "std.mergePatch({a: 1, z: 2}, X)", "std.toString(X)", "X == X", "X + X",
+                "std.mapWithKey(function(k, v) v, X)", "std.manifestIni({main: X, sections: {s: X}})",
+                "std.manifestJsonEx(X, ' ')", "std.manifestYamlStream([X, X])", "std.get(X, 'a', 0)", "std.objectHasEx(X, 'a', true)",
+                "[X[k] for k in std.objectFields(X)]", "{[k]: X[k] for k in std.objectFieldsAll(X)}", "std.manifestXmlJsonml(['t', X])",
+                "std.assertEqual(X, X)", "std.length(X)", "X {q: 1}", "std.objectRemoveKey(X, 'a')", "std.equals(X, {})"]
+
+
+def programs_shard(args):
+    seed, n, cases = args
+    import genrmkey
+    import genast
+    import genprog
+    from checks import c09
+    rng = random.Random(seed)
+    agg = Agg()
+    srv = Server()
+    try:
+        def go(src, family, session=False):
+            if isinstance(src, str):
+                src = src.encode("utf-8")
+            lines = run_lines(src, path="<prog>", stack=500, multiline=rng.randrange(2),
+                              session=(rng.randrange(2), "-") if session else None)
+            o = observe(agg, srv, lines, src[:600].decode("utf-8", "replace"), family, timeout=30)
+            if o is not None:
+                agg.count("programs:%s:%s" % (family, o.cls))
+                agg.nontrivial.add(common.h64(src))
+            return o
+        for name, ctx, tree in cases:
+            go(genast.render(tree, "min")[0], "binder_matrix", session=rng.random() < 0.2)
+        for i in range(n):
+            h = genrmkey.gen(rng)
+            head, root = genrmkey.render(h)
+            use = rng.choice(HISTORY_USES)
+            go(head + "local X = %s; %s" % (root, use), "history")
+            g = genprog.Gen(rng, depth=rng.choice([2, 3, 3, 4]), obj_heavy=rng.random() < 0.4)
+            base = g.top()
+            inj = c09.inject(base, rng)
+            if inj is not None:
+                go(genast.render(inj[0], "min")[0], "scope_fault_injected", session=rng.random() < 0.2)
+            pool = rng.choice([["x"], ["x", "y"], ["x", "y", "z"], ["a", "b", "self_", "x"]])
+            go(genast.render(c09.rename_to_pool(base, rng, pool), "min")[0], "renamed_to_pool")
+            if i < 1:
+                agg.sample({"leg": "programs", "history": head + root, "use": use})
+        if seed % 16 == 0:
+            for src in c09.TEMPLATES_OK + [t for t, _ in c09.TEMPLATES_BAD]:
+                go(src, "scope_templates", session=True)
+    finally:
+        srv.close()
+    return agg
+
 # ------------------------------------------------------------------------------------------------
 # leg 2c: function-specific grids (from reading the code: places where byte offsets, widths, sizes matter)
 
@@ -551,6 +607,12 @@ def run(tier, seed):
         total.merge(a)
     for a in common.pmap(values_shard, [(seed * 6007 + i, order[i::32], 60 if quick else 2500) for i in range(32)]):
         total.merge(a)
+    from checks import c09 as _c09
+    mcases = [(name, ctx, t2) for name, t in _c09.binder_matrix() for ctx, t2 in _c09.in_contexts(t)]
+    if quick:
+        mcases = mcases[seed % 2::2]
+    for a in common.pmap(programs_shard, [(seed * 7001 + i, 150 if quick else 6000, mcases[i::32]) for i in range(32)]):
+        total.merge(a)
     grids = grid_sources()
     rng.shuffle(grids)
     if quick:
@@ -579,7 +641,9 @@ def run(tier, seed):
     rule = ("byte-level inputs (random bytes, token soup, mutated ui-tests corpus) loaded/evaluated/manifested in "
             "evalsrv under catch_unwind (1/3 of failing inputs again through Session to see the rendered "
             "diagnostic); every std function x argument tuples from a boundary pool; a sample through the release "
-            "CLI with random flags/ext vars/TLAs; nesting towers of every recursive construct through the CLI; thorough tier: the "
+            "CLI with random flags/ext vars/TLAs; whole programs from the other checks' generators (objectRemoveKey/inheritance "
+            "histories consumed by 28 builtins and manifesters, programs with an injected scoping fault, binders renamed to a "
+            "small pool, the binder matrix of C09) evaluated for the outcome class; nesting towers of every recursive construct through the CLI; thorough tier: the "
             "byte-level workload again on an ASan/LSan build, and a coverage-guided libFuzzer campaign (ASan, debug assertions, "
             "overflow checks) through load/evaluate/manifest and the Session diagnostics, every kept artifact re-run alone. "
             "distinct_nontrivial = distinct inputs that got past the lexer (bytes leg) + distinct builtin calls + "
